@@ -253,8 +253,11 @@ def minimise(mod, spec, sig, trace, stalls, budget_s):
     best_spec, best_trace, best_stalls = spec, trace, stalls
     info = {"spec_steps": 0, "sched_steps": 0, "trace_before": len(trace)}
 
+    fam_of = getattr(mod, "family", lambda x: x)
+    fam = fam_of(sig)
+
     def has_sig(r):
-        return r.harness_error is None and any(v["sig"] == sig for v in r.viol)
+        return r.harness_error is None and any(fam_of(v["sig"]) == fam for v in r.viol)
 
     # 1. workload shrinking
     shrink = getattr(mod, "shrink", None)
@@ -315,7 +318,9 @@ def minimise(mod, spec, sig, trace, stalls, budget_s):
             return None
     info["trace_after"] = len(trace_l)
     info["steps"] = r.sim.step
-    msg = [v["msg"] for v in r.viol if v["sig"] == sig][0]
+    hit = [v for v in r.viol if fam_of(v["sig"]) == fam][0]
+    msg = hit["msg"]
+    info["sig"] = hit["sig"]
     return {"spec": best_spec, "trace": trace_l, "stalls": [list(x) for x in best_stalls],
             "sha": r.sha, "msg": msg, "info": info}
 
@@ -444,19 +449,26 @@ def check_main(prop, tier, replay=None):
         else:
             new_sigs.append(sig)
 
-    # 3. minimise + verify + report new violations
+    # 3. minimise + verify + report new violations (one representative per signature family)
     os.makedirs(os.path.join(VERIF, "replays"), exist_ok=True)
     reported = []
-    for sig in new_sigs[:6]:
-        cands = sorted(by_sig[sig], key=lambda v: (v["steps"], len(v["trace"])))
+    fam_of = getattr(mod, "family", lambda sig: sig)
+    families = {}
+    for sig in new_sigs:
+        families.setdefault(fam_of(sig), []).append(sig)
+    fam_list = sorted(families, key=lambda f: -sum(sig_counts.get(x, 1) for x in families[f]))
+    for fam in fam_list[:5]:
+        members = families[fam]
+        cands = sorted((v for x in members for v in by_sig[x]), key=lambda v: (v["steps"], len(v["trace"])))
         v = cands[0]
+        sig = v["sig"]
         sig8 = hashlib.sha256(sig.encode()).hexdigest()[:8]
         tmp_in = os.path.join(VERIF, "replays", ".min-%s-%s.in.json" % (prop, sig8))
         tmp_out = os.path.join(VERIF, "replays", ".min-%s-%s.out.json" % (prop, sig8))
         with open(tmp_in, "w") as f:
             json.dump({"property": prop, "spec": v["spec"], "sig": sig, "trace": v["trace"],
                        "stalls": v["stalls"]}, f)
-        budget = float(os.environ.get("VERIF_MIN_S", "25" if tier == "quick" else "90"))
+        budget = float(os.environ.get("VERIF_MIN_S", "20" if tier == "quick" else "90"))
         res = None
         try:
             p = subprocess.run([PY, script, "--minimise", tmp_in, tmp_out, str(budget)],
@@ -475,7 +487,7 @@ def check_main(prop, tier, replay=None):
         path = os.path.join(VERIF, "replays", "%s-%s-%d.json" % (prop, sig8, v["idx"]))
         with open(path, "w") as f:
             json.dump({"property": prop, "spec": res["spec"], "trace": res["trace"], "stalls": res["stalls"],
-                       "expect": {"sig": sig, "sha": res["sha"]}, "message": res["msg"],
+                       "expect": {"sig": res["info"].get("sig", sig), "sha": res["sha"]}, "message": res["msg"],
                        "minimisation": res["info"], "found_at": {"VERIF_SEED": vseed, "index": v["idx"], "tier": tier},
                        "repo_tree": repo_tree_id(),
                        "how_to_replay": "cd /verif && ./check %s --replay %s" % (prop, os.path.relpath(path, VERIF))},
@@ -485,16 +497,18 @@ def check_main(prop, tier, replay=None):
         if p.returncode == 1 and "event log identical" in p.stdout:
             print("VIOLATION property=%s replay=%s" % (prop, path))
             print("  signature: %s" % sig)
-            print("  occurrences: %d of %d runs; minimisation: %s" % (sig_counts.get(sig, 1), agg["runs"], json.dumps(res["info"])))
+            nfam = sum(sig_counts.get(x, 1) for x in members)
+            print("  occurrences: %d of %d runs (%d signature variant(s) in this family); minimisation: %s"
+                  % (nfam, agg["runs"], len(members), json.dumps(res["info"])))
             print("  " + res["msg"].replace("\n", "\n  ")[:1800])
             reported.append(sig)
             rc = 1
         else:
             print("HARNESS-ERROR violation %r did not replay exactly in a fresh process (rc=%s): %s" % (sig, p.returncode, p.stdout[-600:]))
             rc = max(rc, 2)
-    if len(new_sigs) > 6:
-        for sig in new_sigs[6:]:
-            print("VIOLATION-UNMINIMISED property=%s signature=%s" % (prop, sig))
+    for fam in fam_list[5:]:
+        print("VIOLATION-UNMINIMISED property=%s signature-family=%s (%d runs)" % (prop, fam, sum(sig_counts.get(x, 1) for x in families[fam])))
+        rc = rc or 1
 
     for fd in findings:
         if fd["id"] in known_reported:
